@@ -185,6 +185,16 @@ func validateAssetParams(i interface{}) error {
 				asset.MaxSwapAmount,
 			)
 		}
+
+		if _, err := asset.FixedFee.SafeAdd(asset.MinSwapAmount); err != nil {
+			return fmt.Errorf(
+				"asset %s has fixed fee %s plus minimum swap amount %s out of range: %s",
+				asset.Denom,
+				asset.FixedFee,
+				asset.MinSwapAmount,
+				err,
+			)
+		}
 	}
 
 	return nil
